@@ -1,8 +1,52 @@
-(* C14 — placeholder theorems (totality of both models); the property itself is decided on every
-   run by the checks described in DESIGN.md.  To be replaced by the real statement. *)
-From Coq Require Import List ZArith NArith Bool.
-From OgRek Require Import Base Value Reader Decoder DecoderFacts Encoder EncoderFacts.
-Theorem C14_partial_totality :
-  (forall cfg st inp, fst (fst (decode cfg st inp)) <> Panic /\ fst (fst (decode cfg st inp)) <> OutOfFuel)
-  /\ (forall c v fa, snd (run_w (encode c v) fa) <> EPanic).
-Proof. split; [exact decode_safe|exact encode_no_panic]. Qed.
+(* C14 — Decoding does not depend on how the Reader delivers the bytes. *)
+From Coq Require Import List ZArith NArith Bool Lia.
+From OgRek Require Import Base Value Reader Bufio Decoder DecodeL1 DecoderFacts BufioFacts.
+Import ListNotations.
+
+(* The setting.  Model/Bufio.v is a model of what stands between og-rek's handlers and the caller's
+   io.Reader: bufio.Reader with a buffer of bsz bytes (fill, ReadByte, Read, ReadSlice), io.ReadFull,
+   io.CopyN into a bytes.Buffer (every request size left to an arbitrary function ask_copy), the
+   ReadByte loop of loadBinUnicode, and og-rek's own readLine loop over bufio.ErrBufferFull.  The
+   source (b_src) is ANY list of non-empty Read results, the last one delivered with or without
+   io.EOF; b_buf is whatever is already buffered.  absl b is the concatenation: the bytes still to come.
+
+   C14_chunking: for every buffer size >= 1, every request-size policy, every configuration, decoder
+   state and source, the whole sequence of successive Decode results (values and errors, call after
+   call) on the bufio machine equals that of the flat model on absl b - hence two sources with the
+   same concatenation give the same results (C14_same_bytes_same_results): one byte at a time,
+   arbitrary chunk boundaries, data together with io.EOF, lines longer than the buffer.
+   Not modelled (stated, not proved): Read results of length 0 without error (bufio retries up to 100
+   times); a Reader that returns data after io.EOF; errors other than io.EOF. *)
+Theorem C14_chunking :
+  forall bsz ask_full ask_copy, (1 <= bsz)%nat -> ask_ok ask_full -> ask_ok ask_copy ->
+  forall fuel cfg st b, wf b ->
+    decode_all1 bsz ask_full ask_copy fuel cfg st b = decode_all fuel cfg st (absl b).
+Proof. intros. apply decode_all1_refines; assumption. Qed.
+Print Assumptions C14_chunking.
+
+Theorem C14_same_bytes_same_results :
+  forall bsz ask_full ask_copy, (1 <= bsz)%nat -> ask_ok ask_full -> ask_ok ask_copy ->
+  forall fuel cfg st b1 b2, wf b1 -> wf b2 -> absl b1 = absl b2 ->
+    decode_all1 bsz ask_full ask_copy fuel cfg st b1 = decode_all1 bsz ask_full ask_copy fuel cfg st b2.
+Proof. intros. apply chunking_irrelevant; assumption. Qed.
+Print Assumptions C14_same_bytes_same_results.
+
+(* one Decode call: same result, and exactly the flat remainder is left unread *)
+Theorem C14_single_call :
+  forall bsz ask_full ask_copy, (1 <= bsz)%nat -> ask_ok ask_full -> ask_ok ask_copy ->
+  forall cfg st b, wf b ->
+    exists b', wf b' /\
+      decode1 bsz ask_full ask_copy cfg st b = (fst (decode cfg st (absl b)), b') /\
+      absl b' = snd (decode cfg st (absl b)).
+Proof. intros. apply decode1_refines; assumption. Qed.
+Print Assumptions C14_single_call.
+
+(* the hypotheses are satisfiable: a source of three chunks, the last with EOF; both policies used
+   by the run-time comparison *)
+Example C14_nonvacuous :
+  wf {| b_buf := []; b_err := false; b_src := [[Byte.x4b]; [Byte.x05; Byte.x2e]; [Byte.x4e]]; b_eofw := true |}
+  /\ ask_ok (fun need => N.to_nat need) /\ ask_ok (fun need => Nat.min 512 (N.to_nat need)).
+Proof.
+  split; [split; [repeat constructor; discriminate|discriminate]|].
+  split; intros need H; split; lia.
+Qed.
